@@ -198,7 +198,8 @@ def finish(ck: Checker, started: float, seed: int, error: Optional[str] = None) 
         print(f"VIOLATION property={ck.prop_id} replay={rp}")
     if error:
         print(f"ANALYSIS-ERROR property={ck.prop_id} {error}")
-        return 2
+        # a violation that was established before the analysis gave up is still a violation
+        return 1 if new_violations else 2
     if new_violations:
         return 1
     n_h = len(holds)
